@@ -384,7 +384,29 @@ __CPROVER_ensures(g_on && next_task_time != NULL ==> RET && (g_w_asap ? *next_ta
 __CPROVER_ensures(g_fn_calls == OLD(g_fn_calls))
 ;
 
+/* ---------------------------------------------------------------- the heap's ordering function */
+/* s_compare_timestamps is the predicate the timed-task heap is built with.  source/priority_queue.c consults it ONLY as
+ * `pred(x, y) > 0` ("x has to sink below y": s_sift_down :68/:78, s_sift_up :118), so "the heap is a MIN-heap by time"
+ * (what the client contracts of top/pop above assume: the element shown/handed out has a minimal time; property:
+ * "timed tasks run in non-decreasing time order", "next-task-time reports the earliest pending time", "all timestamps
+ * including 0, equal, decreasing and UINT64_MAX") holds iff, for ALL pairs of 64-bit time stamps,
+ *         pred(a, b) > 0   <=>   time(a) > time(b)           (plain unsigned order - no wrap-around tolerance)
+ * in particular equal times (the same task, or two tasks) never order one in front of the other.  The sign of a
+ * non-positive result is not used by the heap and is therefore not constrained (the real code returns 0 or 1).
+ * a and b point at heap SLOTS (elements are `struct aws_task *`, item_size == sizeof(struct aws_task *)): slots of
+ * the constant table g_q_slot, which may be the same slot or different slots, holding tasks of the arena.  Reads only. */
+#define TS_IS_SLOT(p)                                                                                                  \
+    (__CPROVER_same_object((p), g_q_slot) && TS_POFF(p) < sizeof(g_q_slot) && TS_POFF(p) % sizeof(struct aws_task *) == 0)
+#define TS_SLOT_TIME(p) ((*(struct aws_task *const *)(p))->timestamp)
+static int s_compare_timestamps(const void *a, const void *b)
+__CPROVER_requires(TS_SLOTS_OK && TS_IS_SLOT(a) && TS_IS_SLOT(b))
+__CPROVER_assigns()
+__CPROVER_ensures((RET > 0) == (TS_SLOT_TIME(a) > TS_SLOT_TIME(b)))
+;
+
 /* ---------------------------------------------------------------- init / run_all / clean_up (forwarders) */
+/* The scheduler's heap must be created with THE ordering function above (precondition, checked at the call in
+ * aws_task_scheduler_init), for elements that are task pointers. */
 int aws_priority_queue_init_dynamic(
     struct aws_priority_queue *queue,
     struct aws_allocator *alloc,
@@ -393,6 +415,7 @@ int aws_priority_queue_init_dynamic(
     aws_priority_queue_compare_fn *pred)
 __CPROVER_requires(queue == &g_sc.timed_queue && alloc != NULL)
 __CPROVER_requires(item_size == sizeof(struct aws_task *) && default_size > 0 && pred != NULL)
+__CPROVER_requires(pred == &s_compare_timestamps)
 __CPROVER_assigns(*queue, g_q_size)
 __CPROVER_ensures(RET == (g_init_fails ? AWS_OP_ERR : AWS_OP_SUCCESS))
 __CPROVER_ensures(!g_init_fails ==> g_q_size == 0 && queue->pred == pred && queue->container.alloc == alloc &&
@@ -404,6 +427,9 @@ int aws_task_scheduler_init(struct aws_task_scheduler *scheduler, struct aws_all
 __CPROVER_requires(scheduler == &g_sc && alloc == &g_ts_alloc)
 __CPROVER_assigns(g_sc, g_q_size)
 __CPROVER_ensures(RET == (g_init_fails ? AWS_OP_ERR : AWS_OP_SUCCESS))
+/* the heap orders by s_compare_timestamps (time order of timed tasks rests on it) */
+__CPROVER_ensures(RET == AWS_OP_SUCCESS ==> g_sc.timed_queue.pred == &s_compare_timestamps &&
+                                            g_sc.timed_queue.container.item_size == sizeof(struct aws_task *))
 __CPROVER_ensures(RET == AWS_OP_SUCCESS ==>
                   g_sc.alloc == alloc && g_q_size == 0 &&
                   g_sc.asap_list.head.next == &g_sc.asap_list.tail && g_sc.asap_list.tail.prev == &g_sc.asap_list.head &&
